@@ -215,6 +215,16 @@ theorem wrap_unique (a mn mx w : K) (h : mn < mx) (hw0 : mn ≤ w) (hw1 : w < mx
 theorem wrap_of_mem (a mn mx : K) (h0 : mn ≤ a) (h1 : a < mx) : wrap a mn mx = a :=
   wrap_unique a mn mx a (lt_of_le_of_lt h0 h1) h0 h1 0 (by simp)
 
+/-- The upper bound itself is **not** a fixed point: it wraps to the lower bound (the interval is
+half-open). A result equal to `max` can therefore only be a rounding artefact. -/
+theorem wrap_max_eq_min (mn mx : K) (h : mn < mx) : wrap mx mn mx = mn :=
+  wrap_unique mx mn mx mn h le_rfl h (-1) (by push_cast; ring)
+
+/-- More generally every `min + k·(max − min)` wraps to `min`. -/
+theorem wrap_multiple_eq_min (mn mx : K) (h : mn < mx) (k : ℤ) :
+    wrap (mn + (k : K) * (mx - mn)) mn mx = mn :=
+  wrap_unique _ mn mx mn h le_rfl h (-k) (by push_cast; ring)
+
 /-- `wrap` is periodic: adding whole interval lengths to the input does not change it. -/
 theorem wrap_periodic (a mn mx : K) (h : mn < mx) (n : ℤ) :
     wrap (a + (n : K) * (mx - mn)) mn mx = wrap a mn mx := by
@@ -224,6 +234,8 @@ theorem wrap_periodic (a mn mx : K) (h : mn < mx) (n : ℤ) :
 
 example : wrap (7 : ℚ) 0 (44/7) = 5/7 :=
   wrap_unique 7 0 (44/7) (5/7) (by norm_num) (by norm_num) (by norm_num) (-1) (by norm_num)
+
+example : wrap (3 : ℚ) (-3) 3 = -3 := wrap_max_eq_min _ _ (by norm_num)
 
 example : wrap (-1 : ℚ) (-3) 3 = -1 := wrap_of_mem _ _ _ (by norm_num) (by norm_num)
 
